@@ -56,7 +56,23 @@ previous contributors; yours must be different from them:
 {prev}"""
 
 
-def main_harmless(root, round2=False):
+HARMLESS3 = """
+
+VARIANT FOR THIS ROUND: make the three changes the kind a maintainer does when "modernising" or mildly optimising code WITHOUT changing
+what it does: hoist a repeated lookup into a local variable, avoid recomputing a value inside a loop, replace an index loop by
+enumerate/zip, use any()/all()/next() instead of a flag loop, dict.get / setdefault / collections helpers instead of explicit
+membership tests, a conditional expression instead of a 4-line if/else, f-strings, pathlib idioms for path handling that resolve
+to the very same paths, `with` blocks for resources, functools.partial instead of a lambda (or vice versa), keyword-only
+arguments on private helpers, turning a private method that does not use self into a @staticmethod or module function,
+lazy logging arguments, narrowing an import, replacing a magic constant by a named module constant, type annotations with
+typing aliases. Each should touch 8 to 40 lines of real logic in the functions most relevant to the property, in a different
+function each. Be careful that iteration orders, exception types, the order of side effects (files opened, processes started,
+log records emitted) and which exceptions are caught stay EXACTLY the same. Deliver them as {wt}/out/r7/, {wt}/out/r8/,
+{wt}/out/r9/ (same contents as described above). Already made by previous contributors (yours must differ):
+{prev}"""
+
+
+def main_harmless(root, round2=False, round3=False):
     os.makedirs(root, exist_ok=True)
     for l in open(os.path.join(VERIF, 'properties.jsonl')):
         p = json.loads(l)
@@ -65,13 +81,13 @@ def main_harmless(root, round2=False):
         subprocess.run(['git', '-C', '/repo', 'worktree', 'add', '-q', '--detach', wt, 'HEAD'], check=True)
         os.makedirs(f'{wt}/out', exist_ok=True)
         text = HARMLESS.format(wt=wt, pid=pid, title=p['title'], statement=p['statement'])
-        if round2:
+        if round2 or round3:
             prevs = []
-            for r in ('r1', 'r2', 'r3'):
+            for r in (('r1', 'r2', 'r3', 'r4', 'r5', 'r6') if round3 else ('r1', 'r2', 'r3')):
                 mp = os.path.join(VERIF, 'harmless', f'{pid}_{r}', 'meta.json')
                 if os.path.exists(mp):
-                    prevs.append(json.load(open(mp)).get('summary', '')[:300])
-            text += HARMLESS2.format(wt=wt, prev='\n'.join(f'  ({i + 1}) "{x}"' for i, x in enumerate(prevs)))
+                    prevs.append(json.load(open(mp)).get('summary', '')[:(200 if round3 else 300)])
+            text += (HARMLESS3 if round3 else HARMLESS2).format(wt=wt, prev='\n'.join(f'  ({i + 1}) "{x}"' for i, x in enumerate(prevs)))
         open(f'{wt}/out/PROMPT.txt', 'w').write(text)
     print('harmless prompts ready under', root)
 
@@ -124,7 +140,7 @@ Before finishing, VERIFY all of this yourself: (i) with the change applied the f
 
 
 if __name__ == '__main__':
-    if len(sys.argv) > 2 and sys.argv[2] in ('harmless', 'harmless2'):
-        main_harmless(sys.argv[1], round2=(sys.argv[2] == 'harmless2'))
+    if len(sys.argv) > 2 and sys.argv[2] in ('harmless', 'harmless2', 'harmless3'):
+        main_harmless(sys.argv[1], round2=(sys.argv[2] == 'harmless2'), round3=(sys.argv[2] == 'harmless3'))
         sys.exit(0)
     main(sys.argv[1], sys.argv[2].split(',') if len(sys.argv) > 2 else [], mini=(len(sys.argv) > 3 and sys.argv[3] == 'mini'))
